@@ -117,6 +117,35 @@ def monPurchaseAccepted (pre post : State) (poolID : Nat) (amt : Int) (user : Bo
    | _, _ => [s!"purchase in unknown pool {poolID}"]) ++
   c (!user || amt ≥ pre.params.minPurchase) s!"purchase of {amt} below the minimum {pre.params.minPurchase}"
 
+/-- the amounts `SecureCollaterals` asks of the providers for a new claim of `loss` (everything locked so far plus the loss,
+    pro rata of the collateral, one unit more while something is left) -/
+def secureShares (s : State) (loss : Int) : List (Addr × Int) :=
+  let totalSecure := s.totalClaimed + loss
+  if s.totalCollateral ≤ 0 then []
+  else
+    let ratio := Dec.quo (Dec.ofInt totalSecure) (Dec.ofInt s.totalCollateral)
+    let rec go : List Provider → Int → List (Addr × Int)
+      | [], _ => []
+      | p :: ps, remaining =>
+        let a0 := min (Dec.truncateInt (Dec.mul (Dec.ofInt p.collateral) ratio)) remaining
+        let a := if a0 < remaining && a0 < p.collateral then a0 + 1 else a0
+        (p.addr, a) :: go ps (remaining - a)
+    go s.providers totalSecure
+
+/-- C09 / C06: what a claim's lock is for — after an admitted claim every provider's share is backed until the lock ends by stake
+    that cannot leave before: its bonded stake plus the unbonding entries that complete at or after the lock's end (or by all the
+    stake it has, if that is less).  `ubds`: (delegator, completion time, balance) as observed after the submission. -/
+def monClaimSecuresStake (pre post : State) (loss endTime : Int) (ubds : List (Addr × Int × Int)) : List String :=
+  (secureShares pre loss).filterMap (fun (a, amt) =>
+    match findProvider post a with
+    | none => none
+    | some p =>
+      let mine := ubds.filter (·.1 == a)
+      let all := mine.foldl (fun acc u => acc + u.2.2) 0
+      let late := (mine.filter (fun u => u.2.1 ≥ endTime)).foldl (fun acc u => acc + u.2.2) 0
+      if p.bonded + late ≥ min amt (p.bonded + all) then none
+      else some s!"provider {a}: share {amt} of the lock until {endTime}, but only bonded {p.bonded} + unbonding completing then or later {late} stays that long (all unbonding {all})")
+
 /-- C06: after an accepted deposit the provider's collateral not being withdrawn is within its bonded stake -/
 def monDepositAccepted (post : State) (a : Addr) : List String :=
   match findProvider post a with
